@@ -137,6 +137,12 @@ func BuildResponse(s *RespSpec) (*Response, error) {
 				r.Status = ConnectHTTPStatus(s.Status.Code)[0]
 				r.Header.Set("Content-Type", "application/json")
 				r.Body = connectErrorJSON(&s.Status)
+				if s.Knobs.CompressEnd && s.Encoding != "" && s.Encoding != "identity" {
+					// the error document is the body of this HTTP response and
+					// may be content-encoded like any other
+					r.Body = comp.Compress(s.Encoding, r.Body)
+					r.Header.Set("Content-Encoding", s.Encoding)
+				}
 				return r, nil
 			}
 			r.Header.Set("Content-Type", s.ContentType)
